@@ -16,12 +16,19 @@ abbrev R := Except String
 
 def isDigit (c : Char) : Bool := '0' ≤ c && c ≤ '9'
 
-/-- `strconv.Atoi` on an unsigned decimal: digits only, value must fit a 64-bit `int` -/
+/-- `strconv.Atoi` followed by the `n < 0` rejection of `OidFromString`: an optional sign, then decimal
+    digits only (leading zeros do not change the value); the value must fit a 64-bit `int` and not be negative -/
 def atoiNat (s : String) : Option Nat :=
-  if s.isEmpty || !s.all isDigit then none
+  let cs := s.toList
+  let (neg, body) : Bool × List Char := match cs with
+    | '+' :: r => (false, r)
+    | '-' :: r => (true, r)
+    | _ => (false, cs)
+  if body.isEmpty || !body.all isDigit then none
   else
-    let n := s.foldl (fun a c => a * 10 + (c.toNat - 48)) 0
-    if n < 2 ^ 63 then some n else none
+    let n := body.foldl (fun a c => a * 10 + (c.toNat - 48)) 0
+    if neg then (if n = 0 then some 0 else none)
+    else if n < 2 ^ 63 then some n else none
 
 /-- largest arc `encoding/asn1` can read back (`math.MaxInt32`) -/
 def maxArc : Nat := 2 ^ 31 - 1
@@ -29,7 +36,7 @@ def maxArc : Nat := 2 ^ 31 - 1
 /-- `cert.OidFromString`: the empty string is the empty OID; otherwise every dot-separated part must
     be an `int` that `encoding/asn1` can read back (at most 2^31-1, and so must be the combined first
     two arcs).  Parts with a sign are outside the configuration grammar (the schemas admit digits
-    only) and are rejected by the model. -/
+    only); `Atoi` reads them, so the model does too. -/
 def oidFromString (s : String) : Option Oid :=
   if s.isEmpty then some [] else
   match (s.splitOn ".").mapM atoiNat with
